@@ -15,7 +15,7 @@ REACTIONS = {
     'r_delay': (['B'], [], 'massaction', {'k': 0.6}, 'fixed', [], ['C'], {'delay': 0.3}),
     'r_gdelay': (['A'], [], 'massaction', {'k': 0.7}, 'gaussian', [], ['B'], {'mean': 0.3, 'std': 0.2}),
 }
-OPS = ['species', 'r_ma', 'r_hill', 'r_gen', 'r_delay', 'r_gdelay', 'param', 'rule', 'rule_dt', 'setp', 'setps', 'sets', 'init', 'iface', 'iface_safe',
+OPS = ['species', 'r_ma', 'r_hill', 'r_gen', 'r_delay', 'r_gdelay', 'r_bad', 'param', 'rule', 'rule_dt', 'setp', 'setps', 'sets', 'init', 'iface', 'iface_safe',
        'sim_det', 'sim_ssa', 'sim_safe', 'sim_vol', 'sim_delay', 'sim_delayvol', 'sim_iface', 'sim_iface_det', 'other_det', 'seed']
 
 
@@ -49,6 +49,19 @@ def apply(m, sh, op, ctx_state, c, case):
             m._add_species('D'); m.set_species({'D': 2.0})
             sh.species.append('D'); sh.values['D'] = 2.0
             edited = True
+    elif op == 'r_bad':
+        # an edit that is rejected (a Hill rate naming a species that does not exist; a delay whose parameter is not a number or
+        # parameter; named rate constants, so that no dummy parameter is created on the way): the definition is unchanged, whatever the call left behind must not matter later
+        n_bad = ctx_state['bad'] = ctx_state.get('bad', 0) + 1
+        bad = (['A'], ['B', 'B'], 'hillpositive', {'k': 'kf', 'K': 'KK', 'n': 'nn', 's1': 'NoSuchSpecies'}) if n_bad % 2 else \
+            (['B'], ['A'], 'massaction', {'k': 'kf'}, 'fixed', ['A'], ['B', 'B'], {'delay': 'A'})
+        try:
+            m.create_reaction(*[(dict(x) if isinstance(x, dict) else (list(x) if isinstance(x, list) else x)) for x in bad])
+        except Exception:
+            pass
+        else:
+            c.violation('C08/rejected-edit-accepted', 'create_reaction accepted %r' % (bad,), case)
+        edited = True
     elif op in REACTIONS:
         rx = REACTIONS[op]
         m.create_reaction(*[(dict(x) if isinstance(x, dict) else (list(x) if isinstance(x, list) else x)) for x in rx])
@@ -274,7 +287,7 @@ def run(ctx):
     pmap(check, hists, ctx, nshards=512)
     ctx.bounds = dict(history_length=L, alphabet=OPS, histories=len(hists))
     ctx.rule = ('E3: every operation sequence up to the length bound over {add species; add a mass-action / proportional-Hill (named parameters) / '
-                'general / fixed-delay / Gaussian-delay reaction; add a parameter; add a species-assigning repeated rule; add a dt counter rule (not idempotent); set a parameter; set a species value; '
+                'general / fixed-delay / Gaussian-delay reaction; an add-reaction call that is rejected; add a parameter; add a species-assigning repeated rule; add a dt counter rule (not idempotent); set a parameter; set a species value; '
                 'py_initialize; build and keep a plain / safe interface; simulate through py_simulate_model in deterministic, SSA, safe, volume '
                 'delay and delay+volume mode; simulate (SSA and deterministic) through the kept interface while it is current; integrate an unrelated model in between; seed} is applied to a real Model while a shadow '
                 'definition is maintained. After every history: seeded SSA / safe / volume / delay trajectories (2 seeds + a scripted stream), '
